@@ -36,6 +36,27 @@ BUILT = {
         'helpers mutually inverse and triangle-consistent; element tables agree by symbol and atomic number; molar mass '
         'is the count-weighted sum.',
    note=BASE_NOTE + '; tolerance rule for definition checks: 1.5 x sum of half-units-in-the-last-place of the literals, floor 1e-7'),
+ 'C17': dict(level='proof', sec='4/C17',
+   text='Class invariant WF (equal lengths, ascending breakpoints starting at 0, zero first intercept, continuity at every '
+        'breakpoint) is established by the constructor/_set_intercepts/from_dict and preserved by insert and pop for an '
+        'ARBITRARY well-formed receiver, so it holds after any edit history; insert/pop postconditions are over the whole '
+        'view (all other pairs preserved in order); get_UoRT x R T is proved equal to the unique continuous piecewise-linear '
+        'function of the lists (T-independent); S, Cp, Cv contributions are 0; WF determines the intercepts.',
+   note=BASE_NOTE + '; list lengths enumerated 1-5 (quick) / 1-12 (thorough), all values symbolic; np.argmax modelled as first-true index'),
+ 'C13': dict(level='proof', sec='4/C13',
+   text='Constructor invariant over phase x attached-model shapes x add_gas_P_adj: exactly one GasPressureAdj for gas species, '
+        'none added otherwise, other models preserved in order; _get_mix_quantity returns one entry per model in order; '
+        'Nasa/Nasa9/Shomate getters = bare polynomial + sum of every attached model (scalar and array T); '
+        'S(P) - S(1 bar) = -ln P, G accordingly, H and Cp unaffected; to_dict/from_dict cycles keep exactly one adjustment.',
+   note=BASE_NOTE + '; attached-model lists enumerated up to length 2 (quick) / 4 (thorough) over {pressure adjustment object, its dict form, coverage effect}'),
+ 'C01': dict(level='proof', sec='4/C01',
+   text='Every mode getter is proved equal to its textbook expression (harmonic oscillator and quasi-RRHO for ANY number of modes '
+        'via symbolic-length arrays and the map loop rule; Einstein; Debye with quad = integral; rigid rotor; Sackur-Tetrode; '
+        'ground-state degeneracy); G=H-TS, F=U-TS, dU/dT=Cv, dH/dT=Cp, T dS/dT=Cp, S(P2)-S(P1)=-ln(P2/P1), H-U=RT or 0 are proved '
+        'per mode and for an assembled species (structural derivative, exp/log atoms with exact relations); cached valid '
+        'wavenumbers/temperatures and spin degeneracy invariants; keyword routing; species total = sum/product of verbose entries.',
+   note=BASE_NOTE + '; scipy.integrate.quad is the integral; FTC/Leibniz; limits at 0+ of the two Debye by-parts boundary terms trusted; '
+        'geometry-derived parameters (ASE) only by a labelled bounded check; one known finding (Debye F integrand)'),
 }
 REASON_PENDING = 'check not built yet (build phase in progress; see DESIGN.md section 10)'
 checks = []
